@@ -235,6 +235,7 @@ fn vec_check(ctx: &mut Ctx) {
     }
     let _ = ALL_KINDS;
     if prop == Prop::C20 {
+        ctx.miri_phase();
         // the observable histories (C01-C03, C16, C19 generators) with the instrumented value type
         let run_o = move |c: &ObsCase| engine_obs::run(c, prop);
         ctx.regress_dir("regress", "obs", &run_o);
